@@ -39,7 +39,7 @@ ASSUMPTIONS = ["box frequency profiles are not combined with sub-sample integrat
 PROBES = ["callback_raised_on_frame_k>0", "interrupt_inside_later_frame", "integrate_path", "integrate_t_profile",
           "integrate_f_profile", "doppler_smearing", "slice_subset", "label_subset", "repeated_injection", "gaps_between_frames",
           "array_path", "bounding_range", "stateful_rfi_path"]
-MAX_LINE_POINTS = 600
+MAX_LINE_POINTS = 1500
 
 
 def generate(rng, tier):
